@@ -35,6 +35,7 @@ type tmpl struct {
 	lines   []string
 	min     int
 	pre     string // statements always first in the unit function
+	post    string // statements always last
 }
 
 var templates = []tmpl{
@@ -66,9 +67,6 @@ var templates = []tmpl{
 			`q := fmt.Sprintf
 	fmt.Println(q("%d|", 3))`,
 			`ap§(fmt.Sprint, 5)`,
-			`fs := []func(a ...interface{}) (int, error){fmt.Println, fmt.Print}
-	fs[0]("slot0")
-	fs[1]("slot1\n")`,
 		}, min: 2},
 	{kind: "fmt-kept", weight: 4, imports: []string{"fmt"},
 		decls: "type s§ struct{}\n\nfunc (s§) String() string { return \"S§\" }\n\nvar _ fmt.Stringer = s§{}\n",
@@ -247,8 +245,7 @@ func sn§() (fmt T)     { fmt = newT("res"); fmt.Println("result"); return }
 	case fmt := <-ch§:
 		fmt.Println("select")
 	}`,
-			`fmt.Println("after")`,
-		}, min: 5},
+		}, min: 5, post: "fmt.Println(\"after\")\n"},
 	{kind: "builtin-name-local", weight: 4, imports: []string{"fmt"},
 		lines: []string{
 			`{
@@ -366,6 +363,10 @@ var (
 	fmt.Println(s.F(1))`}, min: 1},
 	{kind: "lowercase-pkg-typeconv", weight: 2, imports: []string{"fmt", "time"},
 		lines: []string{`fmt.Println(time.Duration(5))`}, min: 1},
+	{kind: "fmt-value-in-composite", weight: 2, imports: []string{"fmt"},
+		lines: []string{`fs := []func(a ...interface{}) (int, error){fmt.Println, fmt.Print}
+	fs[0]("slot0")
+	fs[1]("slot1\n")`}, min: 1},
 	{kind: "lambda-untyped-param", weight: 2, imports: []string{"fmt"},
 		lines: []string{`anyOf(func(x int) int { return x })
 	fmt.Println("after")`}, min: 1},
@@ -403,6 +404,9 @@ func unitFromTemplate(r *vh.Rand, idx int, t tmpl) *unit {
 		body = "\t" + body
 	}
 	body += pickLines(r, t.lines, t.min)
+	if t.post != "" {
+		body += "\t" + t.post
+	}
 	// imports actually used by the chosen statements and the declarations
 	var b strings.Builder
 	b.WriteString("package main\n\n")
@@ -461,7 +465,7 @@ func featurePrograms(r *vh.Rand, nextIdx *int, seed uint64, tier string) []*prog
 		return us
 	}
 	mk := func(name, kind string, n int, main func(calls string) string, extra map[string]string) *program {
-		p := &program{name: name, kind: kind, units: small(n), extra: extra}
+		p := &program{name: name, kind: kind, units: small(n), extra: extra, noCommon: n == 0}
 		p.mainSrc = func(live []*unit) string { return main(unitCalls(live)) }
 		return p
 	}
@@ -483,22 +487,22 @@ func helper(n int) int { return n + 1 }
 
 func main() {
 	fmt.Println("start", helper(1))
-	c := cfg{"x"}
-	fmt.Println(c)
+	mcfg := cfg{"x"}
+	fmt.Println(mcfg)
 	defer fmt.Println("deferred in main")
-	total := 0
-	for i := 0; i < 3; i++ {
-		total += helper(i)
+	mtotal := 0
+	for mi := 0; mi < 3; mi++ {
+		mtotal += helper(mi)
 	}
-	fmt.Printf("total=%d\n", total)
+	fmt.Printf("total=%d\n", mtotal)
 ` + calls + `	if len(os.Args) > 5 {
 		return
 	}
 	func() {
-		fmt.Println("closure", total)
+		fmt.Println("closure", mtotal)
 	}()
-	var late = helper(total)
-	fmt.Println("late", late)
+	var mlate = helper(mtotal)
+	fmt.Println("late", mlate)
 }
 `
 	}, nil))
